@@ -195,8 +195,10 @@ class Wrapped:
             tag = self.tag() if callable(self.tag) else self.tag
             v0, i0, state = orig_init(phase)
             names = {idx: nm for nm, idx in sysobj._g.attrs["nodes"].items()}
-            v = [0.0] * len(v0)
-            i = [0.0] * len(i0)
+            from .shims import SymArr
+
+            v = SymArr([0.0] * len(v0))
+            i = SymArr([0.0] * len(i0))
             for idx, nm in names.items():
                 v[idx] = ctx.iter_real("v[%s]%s%s" % (nm, "@" + phase if phase else "", tag))
                 i[idx] = ctx.iter_real("i[%s]%s%s" % (nm, "@" + phase if phase else "", tag))
